@@ -6,8 +6,8 @@ from ..sym import show
 
 PIECE = "re_compiler::ReCompiler::piece"
 AB = [
-    ("RET", "try(ReCompiler::parse_terminal(a1, box_assume_init_into_vec_unsafe(Box::new_uninit()))) as Continue.0"),
-    ("TERM", "try(ReCompiler::parse_terminal(a1, box_assume_init_into_vec_unsafe(Box::new_uninit())))"),
+    ("RET", "try(ReCompiler::parse_terminal(a1, vec![0])) as Continue.0"),
+    ("TERM", "try(ReCompiler::parse_terminal(a1, vec![0]))"),
     ("MES", "<Operation as OperationControl>::matches_empty_string(RET)"),
     ("ML", "<Operation as OperationControl>::get_match_length(RET)"),
 ]
